@@ -584,7 +584,16 @@ def ord_sample_finalise(repo, tier="quick"):
     for n in fi.cfg.nodes:
         if n.kind == "stmt" and isinstance(n.ast, ast.Return) and n.ast.value is not None:
             t = fi.flow.canon(n.ast.value, n.id)
-            ok = is_call(t, "sort_nodes_by_attr") is not None
+
+            def _sorted_value(term, depth=0):
+                """the term is the result of sort_nodes_by_attr on every definition that reaches it (copies through locals followed)"""
+                if is_call(term, "sort_nodes_by_attr") is not None:
+                    return True
+                if term[0] == "var" and len(term) == 3 and term[2] and depth < 4:
+                    ds_ = [fi.flow.defs[i] for i in term[2]]
+                    return all(d_.kind == "assign" and d_.value is not None and not d_.path and _sorted_value(fi.flow.canon(d_.value, d_.node), depth + 1) for d_ in ds_)
+                return False
+            ok = _sorted_value(t)
             (obs.append(ob_ok("ORD.sample-finalise", fi, n.ast, construct="return sort_nodes_by_attr(...)", instance="return",
                               reason="the renumbered graph is what the caller gets")) if ok else
              obs.append(ob_fail("ORD.sample-finalise", fi, n.ast, construct="return %s" % show(t), instance="return",
